@@ -300,3 +300,14 @@ def _(c):
              and bool(np.array_equal(np.array(second, dtype=float), before)))
     got2 = np.asarray(jpl.get_orbit(name(a), date).copy(frame=name(b)), dtype=float)
     c.ensure("same_vector_again", bool(np.array_equal(got2, got)))
+    # an orbit of the body iterated over (start, stop, step) across the leap second of 2016-12-31 (UTC dates, real IERS tables): every yielded state is the segment
+    # evaluated at the TDB reading of ITS date, i.e. what a direct request for that date returns
+    from datetime import timedelta
+    t0 = Date(2016, 12, 31, 23, 59, 40)
+    o0 = jpl.get_orbit(name(a), t0)
+    pts = list(o0.iter(stop=t0 + timedelta(seconds=60), step=timedelta(seconds=20)))
+    ok_it = len(pts) == 4
+    for p_ in pts:
+        direct = np.asarray(jpl.get_orbit(name(a), p_.date), dtype=float)
+        ok_it = ok_it and bool(np.linalg.norm(np.asarray(p_, dtype=float)[:3] - direct[:3]) <= 1e-3 + 1e-13 * np.linalg.norm(direct[:3]))
+    c.ensure("iterated_states_are_for_their_dates", ok_it)
